@@ -56,11 +56,20 @@ theorem length_le_encParams (ext : Bool) (gs : List (List Cap)) : gs.length ≤ 
     · simp only [if_false, Bool.false_eq_true] at h; omega
     · simp only [if_true] at h; omega
 
-theorem walkParams_enc (ext : Bool) (gs : List (List Cap)) (hw : gs.all (wfGroup ext) = true)
-    (fuel : Nat) (hf : gs.length ≤ fuel) :
-    walkParams ext fuel (encParams ext gs) = .ok gs.flatten := by
+def mapOk (pre : List Cap) (r : Res (List Cap)) : Res (List Cap) :=
+  match r with
+  | .error e => .error e
+  | .ok x => .ok (pre ++ x)
+
+/-- Well-formed capability parameters followed by anything: the walk consumes them and goes on
+    with the tail (this is where a non-capability parameter is met). -/
+theorem walkParams_enc_append (ext : Bool) (gs : List (List Cap)) (hw : gs.all (wfGroup ext) = true)
+    (tail : Bytes) (fuel : Nat) (hf : gs.length ≤ fuel) :
+    walkParams ext fuel (encParams ext gs ++ tail) = mapOk gs.flatten (walkParams ext (fuel - gs.length) tail) := by
   induction gs generalizing fuel with
-  | nil => simpa [encParams] using walkParams_nil ext fuel
+  | nil =>
+    simp only [encParams, List.flatMap_nil, List.nil_append, List.length_nil, Nat.sub_zero, List.flatten_nil, mapOk]
+    cases walkParams ext fuel tail <;> simp
   | cons g t ih =>
     cases fuel with
     | zero => simp at hf
@@ -73,40 +82,52 @@ theorem walkParams_enc (ext : Bool) (gs : List (List Cap)) (hw : gs.all (wfGroup
       have wc := walkCaps_enc g hcaps (groupLen g + 1) (by have := length_le_groupLen g; omega)
       have ihh := ih ht f hf'
       clear ih
+      have fe : f + 1 - (g :: t).length = f - t.length := by simp
+      rw [fe]
+      generalize walkParams ext (f - t.length) tail = R at *
       cases ext with
       | false =>
         simp only [if_false, Bool.false_eq_true] at hlen
-        have e : encParams false (g :: t) = 2 :: groupLen g :: (g.flatMap encCapTLV ++ encParams false t) := by
+        have e : encParams false (g :: t) ++ tail
+            = 2 :: groupLen g :: (g.flatMap encCapTLV ++ (encParams false t ++ tail)) := by
           simp [encParams, List.flatMap_cons, encGroup, groupLen]
-        have tk : List.take (groupLen g) (g.flatMap encCapTLV ++ encParams false t) = g.flatMap encCapTLV :=
+        have tk : List.take (groupLen g) (g.flatMap encCapTLV ++ (encParams false t ++ tail)) = g.flatMap encCapTLV :=
           List.take_left' rfl
-        have dr : List.drop (groupLen g) (g.flatMap encCapTLV ++ encParams false t) = encParams false t :=
+        have dr : List.drop (groupLen g) (g.flatMap encCapTLV ++ (encParams false t ++ tail)) = encParams false t ++ tail :=
           List.drop_left' rfl
         rw [e]
         have gl : (g.flatMap encCapTLV).length = groupLen g := rfl
-        generalize encParams false t = rest at *
+        generalize encParams false t ++ tail = rest at *
         simp [walkParams, tk, dr, gl, wc, ihh]
         try rw [if_neg (by omega), if_neg (by omega)]
+        cases R <;> simp [mapOk]
       | true =>
         simp only [if_true] at hlen
-        have e : encParams true (g :: t) = 2 :: (be16 (groupLen g) ++ (g.flatMap encCapTLV ++ encParams true t)) := by
+        have e : encParams true (g :: t) ++ tail
+            = 2 :: (be16 (groupLen g) ++ (g.flatMap encCapTLV ++ (encParams true t ++ tail))) := by
           simp [encParams, List.flatMap_cons, encGroup, groupLen]
-        have r := rd16_be16 (groupLen g) hlen (g.flatMap encCapTLV ++ encParams true t)
-        have d3 : List.drop 2 (be16 (groupLen g) ++ (g.flatMap encCapTLV ++ encParams true t))
-            = g.flatMap encCapTLV ++ encParams true t := List.drop_left' (by simp)
-        have tk : List.take (groupLen g) (g.flatMap encCapTLV ++ encParams true t) = g.flatMap encCapTLV :=
+        have r := rd16_be16 (groupLen g) hlen (g.flatMap encCapTLV ++ (encParams true t ++ tail))
+        have d3 : List.drop 2 (be16 (groupLen g) ++ (g.flatMap encCapTLV ++ (encParams true t ++ tail)))
+            = g.flatMap encCapTLV ++ (encParams true t ++ tail) := List.drop_left' (by simp)
+        have tk : List.take (groupLen g) (g.flatMap encCapTLV ++ (encParams true t ++ tail)) = g.flatMap encCapTLV :=
           List.take_left' rfl
-        have dr : List.drop (groupLen g) (g.flatMap encCapTLV ++ encParams true t) = encParams true t :=
+        have dr : List.drop (groupLen g) (g.flatMap encCapTLV ++ (encParams true t ++ tail)) = encParams true t ++ tail :=
           List.drop_left' rfl
-        have dr' : List.drop (groupLen g + 2) (be16 (groupLen g) ++ (g.flatMap encCapTLV ++ encParams true t))
-            = encParams true t := by
+        have dr' : List.drop (groupLen g + 2) (be16 (groupLen g) ++ (g.flatMap encCapTLV ++ (encParams true t ++ tail)))
+            = encParams true t ++ tail := by
           rw [Nat.add_comm, ← List.drop_drop, d3, dr]
         rw [e]
         have gl : (g.flatMap encCapTLV).length = groupLen g := rfl
-        generalize encParams true t = rest at *
+        generalize encParams true t ++ tail = rest at *
         simp [walkParams, r, d3, tk, dr', gl, wc, ihh]
         try rw [if_neg (by omega), if_neg (by omega)]
+        cases R <;> simp [mapOk]
 
+theorem walkParams_enc (ext : Bool) (gs : List (List Cap)) (hw : gs.all (wfGroup ext) = true)
+    (fuel : Nat) (hf : gs.length ≤ fuel) :
+    walkParams ext fuel (encParams ext gs) = .ok gs.flatten := by
+  have := walkParams_enc_append ext gs hw [] fuel hf
+  simpa [walkParams_nil, mapOk] using this
 
 theorem wfGroups_iff (ext : Bool) (gs : List (List Cap)) :
     wfGroups ext gs = true ↔ gs.all (wfGroup ext) = true ∧ (encParams ext gs).length < (if ext then 65536 else 256) := by
